@@ -65,7 +65,7 @@ class C09(Pipeline):
     mc = [("ChainHistory_mc", "ChainHistory_mc", ("quick", "thorough")),
           ("ChainHistory_mc", "ChainHistory_mc_deep", ("thorough",))]
     gens = [Gen("ChainHistoryGen9", "ChainHistoryGen9_diag", "bfs", tiers=("quick",), timeout=300),
-            Gen("ChainHistoryGen9", "ChainHistoryGen9_full", "bfs", tiers=("thorough",), timeout=1200, cap=7000)]
+            Gen("ChainHistoryGen9", "ChainHistoryGen9_full", "bfs", tiers=("thorough",), timeout=1200, cap=5000)]
     driver_pkg = "drivers/chainhistory"
     driver_test = "TestDriveNoAbort"
     trace_module = "ChainHistoryTrace"
@@ -79,6 +79,7 @@ class C09(Pipeline):
         "hostile transactions are serialised by hand (the class 'empty' of math.Int / LegacyDec fields removes the field from the wire bytes, which the generated marshaller cannot produce) and signed with the key of the account that sends the well-formed message; kinds marked /all are sent by all 4 validators with the same mutation (values that matter once a quorum agrees); evidence proofs are parameters too (fields of the packed object)",
         "after the hostile block the pigeons keep doing their duty every block (sign, estimate, report relay errors, attest, batch estimates / confirmations, balance / reference block evidence) and users keep sending jobs, transfers and claims every 20 blocks; successful remote executions (transaction proofs) are not produced, relays are reported as failed and retried by the chain",
         "quick tier: every catalogue entry at one (height class, stage) pair rotating with the entry, plus every stage at height class m303 for the kinds whose values reach the end blockers; heights 300 / 303 are crossed when the hostile height is <= 303; thorough tier: a seeded sample of the full product, every run continued to the next multiple of 300 and 303; the periods of 10 000 blocks (reference block requests, purge of stale user contracts) are not reached",
+        "histories without a hostile entry: stages reportedpad / relayed (delivery report nobody attests), split (2 validators against 1), newval (evidence only from a validator created by a user a few blocks earlier, in no snapshot) are run on in mode noattest (pigeons sign / estimate / do batch work, nobody provides evidence) to height 610, past the pruning of the reported messages at height 600; worlds big (powers 50/40/30/30, validator 0's pigeon never runs) and solo (one validator, pigeon never runs) are prepared from genesis like the standard world and run for 120 blocks; a block of a world preparation that aborts is reported as the Prepare step's abort",
         "governance actions other than chain removal and the version gate are not enumerated (their parameters are set by governance, not by a transaction sender)",
     ]
 
